@@ -108,9 +108,28 @@ class LegacySum(p.Sum):
     mapper_method = "map_legacy_sum"
 
 
+class LegacyMid(p.Variable):
+    """legacy subclass that adds nothing (like the in-tree MultiVectorVariable) ..."""
+    mapper_method = "map_legacy_mid"
+
+
+class LegacyLeafTag(LegacyMid):
+    """... and a second legacy level below it that adds an init arg"""
+    init_arg_names = ("name", "tag")
+
+    def __init__(self, name, tag):
+        super().__init__(name)
+        self.tag = tag
+
+    def __getinitargs__(self):
+        return (self.name, self.tag)
+
+    mapper_method = "map_legacy_leaf_tag"
+
+
 USER_CLASSES = [UNode, UNodeSub, ABCNode2D, UExplicit, UInitFalse, UHashFalse, UInitHashFalse,
-                LegacyPure, LegacyVar, LegacySum]
-LEGACY_CLASSES = [LegacyPure, LegacyVar, LegacySum]
+                LegacyPure, LegacyVar, LegacySum, LegacyMid, LegacyLeafTag]
+LEGACY_CLASSES = [LegacyPure, LegacyVar, LegacySum, LegacyMid, LegacyLeafTag]
 
 # }}}
 
